@@ -269,8 +269,7 @@ fn take_next_token(text: &str) -> Option<(usize, AstKind)> {
                 .take_while(|b| b.is_ascii_digit())
                 .count();
             if len < text.len() && text.as_bytes()[len] == b'.' {
-                let decimal_len = text
-                    .as_bytes()
+                let decimal_len = text.as_bytes()[len + 1..]
                     .iter()
                     .take_while(|b| b.is_ascii_digit())
                     .count();
